@@ -11,15 +11,15 @@ T = {
  "C16": ("exploration", "deterministic simulation: colliding directory populations (6-char form, 2-char+hash form, removals) with raw short-name legality / uniqueness / LFN-checksum checks by the independent decoder after every call"),
  "C01": ("exploration", "deterministic simulation: seeded multi-client namespace histories on SimDisk vs in-memory tree model + independent raw decode, benign device faults (EINTR, short reads/writes)"),
  "C02": ("exploration", "deterministic simulation: seeded interleaved file I/O on several open files vs byte-array model, boundary-biased offsets, benign device faults"),
- "C03": ("exploration", "deterministic simulation: independent fsck of the raw image after every simulated API call"),
+ "C03": ("exploration", "deterministic simulation: independent fsck of the raw image after every simulated API call; injected hard errors (seeded, and single-fault enumeration over every device call of mutating operations) with the findings no interrupted call may leave kept in force"),
  "C04": ("exploration", "deterministic simulation: checkpoints (second mount of a copy-on-write snapshot, unmount/drop/abandon + remount, extents) vs model"),
- "C05": ("exploration", "deterministic simulation: stats()/FS-info vs independently counted FAT after every call on ballasted volumes, NotEnoughSpace justified from the raw image"),
+ "C05": ("exploration", "deterministic simulation: stats()/FS-info vs independently counted FAT after every call on ballasted volumes, NotEnoughSpace justified from the raw image; transient storage errors with retry (seeded, enumeration of remove, inside unmount) and power cuts inside unmount / inside calls with remount"),
  "C06": ("exploration", "deterministic simulation: swarm-drawn format requests on SimDisk (benign faults, canary tail) checked by independent decoder + mount; storage-fault probe (device failing beyond byte 511) sweeping sizes"),
  "C07": ("fault_enumeration", "deterministic simulation: corrupt_at_rest fault enumeration on BPB / FS-info fields, guarded mount + first use vs independent coherence predicate"),
  "C09": ("fault_enumeration", "deterministic simulation: exhaustive single-fault enumeration over the device calls of a target operation in seeded histories (hard error at call k, device-dies variant, call budget), in_drop hook"),
- "C10": ("exploration", "deterministic simulation: FAT copy comparison and per-entry diff audit after every call"),
+ "C10": ("exploration", "deterministic simulation: FAT copy comparison and per-entry diff audit after every call (volumes formatted on blank and non-blank devices, builder-made foreign images)"),
  "C11": ("exploration", "deterministic simulation: audit of every logged device write against an ownership map decoded before the call; canaries; short-write faults"),
- "C12": ("fault_enumeration", "deterministic simulation with crash points at every call boundary: status byte vs structural change derived from the write log; abandoned snapshots remounted"),
+ "C12": ("fault_enumeration", "deterministic simulation with crash points at every call boundary: status byte vs structural change derived from the write log; abandoned snapshots remounted; transient storage errors with retry and inside unmount"),
  "C13": ("exploration", "deterministic simulation: device write log of seeded read-only sessions must be empty"),
  "C14": ("fault_enumeration", "deterministic simulation: lost_suffix fault (power cut on a flush-honouring write-back cache) at every device-write boundary after each flush point, remount + read back"),
  "C18": ("exploration", "deterministic simulation: SimClock-driven histories (skew, jumps, edges), stamping rules vs model; raw timestamp words decoded independently"),
